@@ -119,11 +119,20 @@ type config struct {
 	Budget int    `json:"budget"`         // back-off budget of the call in ms
 	Slow   string `json:"slow"`           // none | s2 | leader
 	Rnd    int    `json:"rnd"`            // 0: ties pick the first candidate, jitter max; 1: ties pick the last, jitter min
-	ord    int    // position in the enumeration order (simplest first); used to pick the reported example
+	// Pre: "" = the judged call is the first one on the region cache. Otherwise an EARLIER call ran on the
+	// same cache before the judged one (part "after-forwarded"): a leader-read Get whose stores answer the
+	// listed faults by position ("ok" = none) and genuinely afterwards, over the same liveness / forwarding
+	// setting. It is meant to end in a forwarded success, which makes the region remember the proxy.
+	Pre string `json:"pre,omitempty"`
+	ord int    // position in the enumeration order (simplest first); used to pick the reported example
 }
 
 func (c config) String() string {
-	return fmt.Sprintf("%s/%s/%s/%s/%s/live=%s/fwd=%v/ts=%s/B=%d/slow=%s/rnd=%d", c.Topo, c.Mode, c.Opt, c.Cmd, c.path(), c.Live, c.Fwd, c.TS, c.Budget, c.Slow, c.Rnd)
+	s := fmt.Sprintf("%s/%s/%s/%s/%s/live=%s/fwd=%v/ts=%s/B=%d/slow=%s/rnd=%d", c.Topo, c.Mode, c.Opt, c.Cmd, c.path(), c.Live, c.Fwd, c.TS, c.Budget, c.Slow, c.Rnd)
+	if c.Pre != "" {
+		s += "/earlier-call=" + c.Pre
+	}
+	return s
 }
 
 func (c config) path() string {
@@ -561,6 +570,10 @@ type result struct {
 	asyncAddr       string
 	asyncNoCallback bool
 	asyncSends      int
+	// earlier call (config.Pre)
+	preAttempts []attempt
+	preOutcome  string // how the earlier call ended
+	preProxy    int    // the region's remembered proxy (access index) when the judged call starts; -1 none
 }
 
 // inlineExec is the async.Executor of the asynchronous path (see run).
@@ -718,6 +731,13 @@ func (w *world) run(id caseID, fastCap, hardCap int) (res *result) {
 	}
 	cache.VerifC10SetForwarding(cfg.Fwd)
 
+	res.preProxy = -1
+	if cfg.Pre != "" {
+		if !w.earlierCall(cfg, cache, loc.Region, res, fastCap, hardCap) {
+			return
+		}
+	}
+
 	bo := retry.NewBackoffer(context.Background(), cfg.Budget)
 	cl := &scriptClient{cfg: cfg, script: script, tail: id.Tail, bo: bo, fastCap: fastCap, hardCap: hardCap}
 	res.validator = &tsValidator{}
@@ -766,6 +786,59 @@ func (w *world) run(id caseID, fastCap, hardCap int) (res *result) {
 		res.selector = sender.VerifC10SelectorString()
 	}
 	return
+}
+
+// earlierCall runs the call that precedes the judged one on the same region cache (config.Pre): a plain
+// leader-read Get through a sender of its own, with a generous budget; the stores answer the faults of
+// cfg.Pre by position and genuinely afterwards. The call is not judged (the same call is a case of part
+// "main"); it only brings the cache into the state a real client is in after a forwarded request: leader
+// store known unreachable, proxy remembered in the region (regionStore.proxyTiKVIdx). What it left behind
+// is measured (res.preOutcome, res.preProxy) and is part of the case identity through cfg.Pre.
+func (w *world) earlierCall(cfg config, cache *locate.RegionCache, region locate.RegionVerID, res *result, fastCap, hardCap int) (ok bool) {
+	var script []answer
+	if cfg.Pre != "ok" {
+		for _, s := range strings.Split(cfg.Pre, ",") {
+			a, found := answerByName(s)
+			if !found {
+				res.setupErr = "unknown answer in the earlier call: " + s
+				return false
+			}
+			script = append(script, a)
+		}
+	}
+	pcfg := config{Topo: cfg.Topo, Mode: "leader", Opt: "none", Cmd: "get", Live: cfg.Live, Fwd: cfg.Fwd, TS: "valid", Budget: 20000, Slow: cfg.Slow, Rnd: cfg.Rnd}
+	bo := retry.NewBackoffer(context.Background(), pcfg.Budget)
+	cl := &scriptClient{cfg: pcfg, script: script, tail: tailSuccess, bo: bo, fastCap: fastCap, hardCap: hardCap}
+	sender := locate.NewRegionRequestSender(cache, cl, oracle.NoopReadTSValidator{})
+	req, opts, timeout := buildRequest(pcfg)
+	var resp *tikvrpc.Response
+	var err error
+	func() {
+		defer func() {
+			if p := recover(); p != nil {
+				err = errors.Errorf("earlier call aborted: %v", p)
+			}
+		}()
+		resp, _, _, err = sender.SendReqCtx(bo, req, region, timeout, tikvrpc.TiKV, opts...)
+	}()
+	res.preAttempts = cl.attempts
+	n := len(cl.attempts)
+	switch {
+	case err != nil:
+		res.preOutcome = "error"
+	case resp == nil:
+		res.preOutcome = "nil"
+	default:
+		if re, e := resp.GetRegionError(); e != nil || re != nil {
+			res.preOutcome = "region-error"
+		} else if n > 0 && cl.attempts[n-1].genuineOK && cl.attempts[n-1].Forwarded != "" {
+			res.preOutcome = "success/forwarded-via-" + cl.attempts[n-1].Addr
+		} else {
+			res.preOutcome = "success/direct"
+		}
+	}
+	res.preProxy = cache.VerifC10ProxyIdx(region)
+	return true
 }
 
 func errClass(err error) string {
